@@ -267,6 +267,18 @@ func (c *Ctx) ParFor(n int64, f func(w *W, i int64)) {
 	if n <= 0 {
 		return
 	}
+	seq := atomic.AddInt64(&parforSeq, 1)
+	if onlyIdx >= 0 { // replay of one position of the enumeration
+		if seq == onlySeq && onlyIdx < n {
+			w := c.Worker()
+			ws := watchEnter(c, seq)
+			ws.at(onlyIdx)
+			f(w, onlyIdx)
+			ws.leave()
+			w.Done()
+		}
+		return
+	}
 	if shardN > 1 {
 		// one shard of a multi-process run: this process takes chunks j with j mod N == k
 		chunk := n / int64(shardN*16)
@@ -275,7 +287,8 @@ func (c *Ctx) ParFor(n int64, f func(w *W, i int64)) {
 		}
 		w := c.Worker()
 		defer w.Done()
-		parforSeq++
+		ws := watchEnter(c, seq)
+		defer ws.leave()
 		for j, lo := int64(0), int64(0); lo < n; j, lo = j+1, lo+chunk {
 			if j%int64(shardN) != int64(shardK) {
 				continue
@@ -285,7 +298,8 @@ func (c *Ctx) ParFor(n int64, f func(w *W, i int64)) {
 				hi = n
 			}
 			for i := lo; i < hi; i++ {
-				announce(parforSeq, i)
+				announce(seq, i)
+				ws.at(i)
 				f(w, i)
 			}
 		}
@@ -304,6 +318,8 @@ func (c *Ctx) ParFor(n int64, f func(w *W, i int64)) {
 			defer wg.Done()
 			w := c.Worker()
 			defer w.Done()
+			ws := watchEnter(c, seq)
+			defer ws.leave()
 			for {
 				lo := next.Add(chunk) - chunk
 				if lo >= n {
@@ -314,6 +330,7 @@ func (c *Ctx) ParFor(n int64, f func(w *W, i int64)) {
 					hi = n
 				}
 				for i := lo; i < hi; i++ {
+					ws.at(i)
 					f(w, i)
 				}
 			}
